@@ -172,3 +172,115 @@ per_kind!(c14_operator_and_or_empty_list, 5);
 per_kind!(c14_operator_and_or_empty_map, 6);
 per_kind!(c14_operator_and_or_string_like, 7);
 per_kind!(c14_operator_and_or_color, 8);
+
+// ---- K-snippet part: the numeric arms of `+` and `-` and the `and` / `or`
+// arms of Operator::eval, cut out of /repo's current source on every run
+// (tools/extract.py) and wrapped in functions of their free variables.
+// Operator::eval as a whole takes two css::Value by value; CBMC has never
+// finished a harness on it (see the attempts above).  The arms themselves
+// are small: these harnesses finish, and carry the same assertions. ----
+
+//@range file=rsass/src/value/operator.rs impl="impl Operator" fn=eval from="if a.unit == b.unit || b.is_no_unit() {\n                        Some(Numeric::new(a.value + b.value, a.unit).into())" until="\n                }\n                (Value::Literal(a), Value::Literal(b)) => {"
+//@  header: fn snippet_plus_numeric(a: Numeric, b: Numeric) -> Option<Value>
+//@end
+
+//@range file=rsass/src/value/operator.rs impl="impl Operator" fn=eval from="if a.unit == b.unit || b.is_no_unit() {\n                        Some(Numeric::new(&a.value - &b.value, a.unit).into())" until="\n                }\n                // Note: This very special case"
+//@  header: fn snippet_minus_numeric(a: Numeric, b: Numeric) -> Option<Value>
+//@end
+
+//@range file=rsass/src/value/operator.rs impl="impl Operator" fn=eval after="Self::And => " until=",\n            Self::Or => "
+//@  header: fn snippet_and(a: Value, b: Value) -> Option<Value>
+//@end
+
+//@range file=rsass/src/value/operator.rs impl="impl Operator" fn=eval after="Self::Or => " until=",\n            Self::Equal => "
+//@  header: fn snippet_or(a: Value, b: Value) -> Option<Value>
+//@end
+
+fn plus_minus_arm(f: fn(Numeric, Numeric) -> Option<Value>, sign: f64, ua: Unit, ub: Unit) {
+    let x: f64 = kani::any();
+    kani::assume(x.is_finite() && x.abs() <= 1e9);
+    let y = 3.0;
+    let r = f(Numeric::new(x, UnitSet::from(ua.clone())), Numeric::new(y, UnitSet::from(ub.clone())));
+    let got = parts(&r);
+    if ua == ub || ub == Unit::None {
+        assert!(got.is_some(), "same unit / unitless right operand always computes");
+        let (v, u) = got.unwrap();
+        assert!(v == x + sign * y, "same unit / unitless right: plain arithmetic");
+        assert!(u == UnitSet::from(ua), "result keeps the left unit");
+    } else if ua == Unit::None {
+        assert!(got.is_some(), "unitless left operand always computes");
+        let (v, u) = got.unwrap();
+        assert!(v == x + sign * y, "unitless left: plain arithmetic");
+        assert!(u == UnitSet::from(ub), "unitless left operand takes the right unit");
+    } else {
+        match css_ratio(&ub, &ua) {
+            Some(ratio) => {
+                assert!(got.is_some(), "convertible units must add");
+                let (v, u) = got.unwrap();
+                assert!(u == UnitSet::from(ua), "result in the left operand's unit");
+                let want = x + sign * (y * ratio);
+                assert!((v - want).abs() <= 1e-6 + want.abs() * 1e-12, "right operand scaled by the CSS ratio");
+            }
+            None => assert!(r.is_none(), "no fixed ratio: no sum (incompatible units)"),
+        }
+    }
+}
+macro_rules! arm_pair {
+    ($plus:ident, $minus:ident, $a:ident, $b:ident) => {
+        #[kani::proof]
+        #[kani::unwind(4)]
+        fn $plus() {
+            plus_minus_arm(snippet_plus_numeric, 1.0, Unit::$a, Unit::$b);
+        }
+        #[kani::proof]
+        #[kani::unwind(4)]
+        fn $minus() {
+            plus_minus_arm(snippet_minus_numeric, -1.0, Unit::$a, Unit::$b);
+        }
+    };
+}
+arm_pair!(c11_plus_arm_px_px, c11_minus_arm_px_px, Px, Px);
+arm_pair!(c11_plus_arm_px_none, c11_minus_arm_px_none, Px, None);
+arm_pair!(c11_plus_arm_none_px, c11_minus_arm_none_px, None, Px);
+arm_pair!(c11_plus_arm_none_percent, c11_minus_arm_none_percent, None, Percent);
+arm_pair!(c11_plus_arm_percent_none, c11_minus_arm_percent_none, Percent, None);
+arm_pair!(c11_plus_arm_in_cm, c11_minus_arm_in_cm, In, Cm);
+arm_pair!(c11_plus_arm_deg_turn, c11_minus_arm_deg_turn, Deg, Turn);
+arm_pair!(c11_plus_arm_ms_s, c11_minus_arm_ms_s, Ms, S);
+arm_pair!(c11_plus_arm_px_deg, c11_minus_arm_px_deg, Px, Deg);
+arm_pair!(c11_plus_arm_px_rem, c11_minus_arm_px_rem, Px, Rem);
+arm_pair!(c11_plus_arm_s_hz, c11_minus_arm_s_hz, S, Hz);
+
+fn and_or_arm(ta: u8, tb: u8) {
+    let ka = kind(&simple_value(ta));
+    let kb = kind(&simple_value(tb));
+    let falsey = ta == 1 || ta == 2;
+    match snippet_and(simple_value(ta), simple_value(tb)) {
+        Some(v) => assert!(kind(&v) == if falsey { ka } else { kb }, "and: a when a is false/null, else b"),
+        None => assert!(false, "and always yields a value"),
+    }
+    match snippet_or(simple_value(ta), simple_value(tb)) {
+        Some(v) => assert!(kind(&v) == if falsey { kb } else { ka }, "or: a when a is truthy, else b"),
+        None => assert!(false, "or always yields a value"),
+    }
+}
+macro_rules! arm_kind {
+    ($name:ident, $ta:expr) => {
+        #[kani::proof]
+        #[kani::unwind(4)]
+        fn $name() {
+            and_or_arm($ta, 0);
+            and_or_arm($ta, 2);
+            and_or_arm($ta, 3);
+        }
+    };
+}
+arm_kind!(c14_and_or_arm_true, 0);
+arm_kind!(c14_and_or_arm_false, 1);
+arm_kind!(c14_and_or_arm_null, 2);
+arm_kind!(c14_and_or_arm_number, 3);
+arm_kind!(c14_and_or_arm_zero, 4);
+arm_kind!(c14_and_or_arm_empty_list, 5);
+arm_kind!(c14_and_or_arm_empty_map, 6);
+arm_kind!(c14_and_or_arm_string_like, 7);
+arm_kind!(c14_and_or_arm_color, 8);
